@@ -162,8 +162,24 @@ def pools(w):
         item("D4 L", D(4), Liter),
         item("1e9 km3", 1e9, (Kilo * Meter) ** 3),
     ]
-    from measured.si import Hertz
+    # temperatures on four scales, both signs: a negative magnitude can be the warmer one
+    from measured.si import Celsius, Kelvin
+    from measured.us import Fahrenheit, Rankine
 
+    def kelvin(scale, x):
+        x = F(str(x))
+        return {"K": x, "C": x + F("273.15"), "F": (x + F("459.67")) * 5 / 9, "R": x * 5 / 9}[scale]
+
+    out["temperature"] = [
+        (f"{m_} {lab}", m_ * u_, kelvin(sc, m_), None)
+        for lab, u_, sc, mags in (
+            ("degC", Celsius, "C", (-5, -10, 25, D("-40.5"), 100.0)),
+            ("degF", Fahrenheit, "F", (20, -40, -30, 98.6, D("451"))),
+            ("K", Kelvin, "K", (100, 50, 266, 300.5, D("0"))),
+            ("degR", Rankine, "R", (200, 491, 1.5, D("672"))),
+        )
+        for m_ in mags
+    ]
     out["per-area"] = [
         item("1 mi-2", 1, Mile**-2),
         item("1e-9 in-2", 1e-9, Inch**-2),
